@@ -489,6 +489,15 @@ func (g *Grammar) RefModelled() bool {
 	ok := true
 	for _, b := range g.NTs {
 		Walk(b, func(e *Expr) {
+			if e.Op == OpRTrim && e.C == 2 {
+				// RightTrim in the never-failing mode around an operand without nonterminal references
+				Walk(e.Kids[0], func(x *Expr) {
+					if x.Op == OpNT {
+						ok = false
+					}
+				})
+				return
+			}
 			if e.Op > OpNT && e.Op != OpLTrim && e.Op != OpEnd {
 				ok = false
 			}
